@@ -24,6 +24,27 @@ use write_fonts::tables::maxp::Maxp;
 use write_fonts::FontBuilder;
 
 // ------------------------------------------------------------------------------------------
+// panic guard: no panic of the real code may kill the harness.  Every case function runs under
+// `guarded`; it publishes the concrete table / mapping it works on with `set_cur` as soon as it is
+// generated, so that an unexpected panic becomes the oracle failure `no-panic:<case kind>` with that
+// input and the panic message.  Calls with a specific expectation have their own `catch`.
+
+static CUR: std::sync::Mutex<String> = std::sync::Mutex::new(String::new());
+
+fn set_cur(v: String) {
+    *CUR.lock().unwrap_or_else(|e| e.into_inner()) = v;
+}
+
+fn guarded(s: &mut Session, kind: &str, f: impl FnOnce(&mut Session)) {
+    set_cur(String::from("(input not generated yet)"));
+    let r = catch(|| f(&mut *s));
+    if let Err(msg) = r {
+        let input = CUR.lock().unwrap_or_else(|e| e.into_inner()).clone();
+        s.oracle(&format!("no-panic:{kind}"), false, || input, || format!("panicked: {msg}"));
+    }
+}
+
+// ------------------------------------------------------------------------------------------
 // mappings as run tokens
 
 #[derive(Clone, Copy, Debug)]
@@ -352,6 +373,7 @@ fn builder_case(s: &mut Session, rng: &mut Rng, runs: &[Run], all_bmp: bool, num
         return;
     };
     let mt = toks(runs);
+    set_cur(format!("mapping {mt} num_glyphs={num_glyphs}"));
     // the mapping as a function (None on conflict)
     let mut want: BTreeMap<u32, u32> = BTreeMap::new();
     let mut conflict = false;
@@ -578,6 +600,7 @@ fn raw4_case(s: &mut Session, rng: &mut Rng, thorough: bool) {
     let Some(t) = find4(&cmap, 0) else { s.count("raw4:unparsed"); return; };
     let a = arrays4(&t);
     let at = show_arrays4(&a);
+    set_cur(format!("Cmap4 {at}"));
     let mut cps: Vec<u32> = vec![0, 0xFFFE, 0xFFFF, 0x10000];
     for i in 0..a.s.len() {
         for x in [a.s[i] as u32, a.e[i] as u32] {
@@ -642,6 +665,7 @@ fn raw12_case(s: &mut Session, rng: &mut Rng) {
     let Some(rcmap::CmapSubtable::Format12(t)) = first_of(&cmap, true) else { return; };
     let gs = groups12(&t);
     let gt = show_groups(&gs);
+    set_cur(format!("Cmap12 {gt}"));
     let mut cps: Vec<u32> = vec![0, 0xFFFF, 0x10000, 0x10FFFF, 0xFFFF_FFFF];
     for (a, b, _) in &gs {
         for x in [*a, *b] {
@@ -721,6 +745,7 @@ fn selection_case(s: &mut Session, rng: &mut Rng) {
         let k = *rng.pick(&[0u8, 0, 1, 1, 2, 3]);
         recs.push((p, e, k));
     }
+    set_cur(format!("encoding records (platform, encoding, kind) {recs:?}"));
     let records: Vec<wcmap::EncodingRecord> = recs.iter().enumerate()
         .map(|(i, (p, e, k))| wcmap::EncodingRecord::new(PlatformId::new(*p), *e, probe_subtable(*k, i))).collect();
     let cmap = wcmap::Cmap::new(records);
@@ -771,6 +796,7 @@ fn symbol_case(s: &mut Session, rng: &mut Rng) {
         // an ASCII segment too: direct hits win over the fallback
         e.insert(0, 0x45); st.insert(0, 0x41); d.insert(0, 300 - 0x41); r.insert(0, 0);
     }
+    set_cur(format!("symbol Cmap4 end {e:?} start {st:?} delta {d:?}"));
     let sub = wcmap::CmapSubtable::format_4(0, e, st, d, r, vec![]);
     let Some(bytes) = compile_one((3, 0), sub) else { return; };
     let font_bytes = font_with(&bytes, 1000);
@@ -799,6 +825,8 @@ fn cmap14_case(s: &mut Session, rng: &mut Rng) {
     let mut sel_val: u32 = *rng.pick(&[0xFE00u32, 0xFE0E, 0xE0100, 0x180B]);
     let mut recs = vec![];
     let mut toks: Vec<String> = vec![];
+    // what Cmap14Iter must yield for each record (defaults expanded in array order, then non-defaults)
+    let mut exp_recs: Vec<Vec<String>> = vec![];
     let mut want: BTreeMap<(u32, u32), Option<u16>> = BTreeMap::new(); // (cp, sel) -> None = default / Some(gid)
     let mut total_len: u32 = 10 + 11 * nsel as u32;
     for _ in 0..nsel {
@@ -813,8 +841,11 @@ fn cmap14_case(s: &mut Session, rng: &mut Rng) {
             let mut v = vec![];
             let mut parts = vec![];
             for _ in 0..k {
-                c += rng.below(5) as u32;
-                let add = *rng.pick(&[0u8, 1, 3, 255]);
+                // gaps 0..4; gap 0 from an aligned start gives full 256-character blocks back to back
+                c += *rng.pick(&[0u32, 0, 1, 2, 3, 4]);
+                // additionalCount: smallest, typical, and the u8 boundary (254, 255 = a whole block)
+                let add = *rng.pick(&[0u8, 1, 3, 254, 255, 255]);
+                s.count(&format!("c14:additionalCount={}", match add { 0 => "0", 1 => "1", 254 => "254", 255 => "255", _ => "other" }));
                 v.push(wcmap::UnicodeRange::new(Uint24::new(c), add));
                 parts.push(format!("{c}+{add}"));
                 for x in c..=c + add as u32 { want.insert((x, sel_val), None); used.push(x); }
@@ -829,6 +860,14 @@ fn cmap14_case(s: &mut Session, rng: &mut Rng) {
             total_len += 4 + 4 * k as u32;
             Some(wcmap::DefaultUvs::new(k as u32, v))
         } else { None };
+        let mut exp: Vec<String> = vec![];
+        if dt != "~" {
+            for part in dt.split(',').filter(|p| !p.is_empty()) {
+                let (a, b) = part.split_once('+').unwrap();
+                let (a, b): (u32, u32) = (a.parse().unwrap(), b.parse().unwrap());
+                for x in a..=a + b { exp.push(format!("{x},{sel_val},default")); }
+            }
+        }
         let non_defaults = if have_n {
             let k = rng.below(5) as usize;
             let mut c: u32 = *rng.pick(&[0x21u32, 0x4E05, 0xFFFE, 0x1F601]);
@@ -850,6 +889,13 @@ fn cmap14_case(s: &mut Session, rng: &mut Rng) {
             total_len += 4 + 5 * k as u32;
             Some(wcmap::NonDefaultUvs::new(k as u32, v))
         } else { None };
+        if nt != "~" {
+            for part in nt.split(',').filter(|p| !p.is_empty()) {
+                let (a, g) = part.split_once('>').unwrap();
+                exp.push(format!("{a},{sel_val},v{g}"));
+            }
+        }
+        exp_recs.push(exp);
         recs.push(wcmap::VariationSelector::new(Uint24::new(sel_val), defaults, non_defaults));
         toks.push(format!("{sel_val};{dt};{nt}"));
         sel_val += 1 + rng.below(3) as u32;
@@ -858,14 +904,29 @@ fn cmap14_case(s: &mut Session, rng: &mut Rng) {
         let (i, j) = (rng.below(nsel as u64) as usize, rng.below(nsel as u64) as usize);
         recs.swap(i, j);
         toks.swap(i, j);
+        exp_recs.swap(i, j);
     }
+    let tt = if toks.is_empty() { "-".to_string() } else { toks.join(" ") };
+    set_cur(format!("Cmap14 {tt}"));
     s.count(if malformed { "c14:malformed" } else { "c14:well-formed" });
     let sub = wcmap::CmapSubtable::format_14(total_len, nsel as u32, recs);
     let Some(bytes) = compile_one((0, 5), sub) else { s.count("c14:compile-failed"); return; };
     let font_bytes = font_with(&bytes, 1000);
-    let font = FontRef::new(&font_bytes).unwrap();
-    let cm = font.charmap();
-    s.oracle("cmap14-selected", cm.has_variant_map(), || toks.join(" "), || String::new());
+    let font = match catch(|| FontRef::new(&font_bytes)) {
+        Ok(Ok(f)) => f,
+        other => {
+            s.oracle("cmap14-font-opens", false, || format!("Cmap14 {tt}"), || format!("{:?}", other.map(|r| r.map(|_| ()).map_err(|e| e.to_string()))));
+            return;
+        }
+    };
+    let cm = match catch(|| font.charmap()) {
+        Ok(cm) => cm,
+        Err(m) => {
+            s.oracle("cmap14-selected", false, || format!("Cmap14 {tt}"), || format!("panicked: {m}"));
+            return;
+        }
+    };
+    s.oracle("cmap14-selected", cm.has_variant_map(), || format!("Cmap14 {tt}"), || String::new());
     let mut qs: Vec<(u32, u32)> = vec![(0x41, 0xFE00), (0, 0)];
     for ((c, sel), _) in &want {
         for dc in [-1i64, 0, 1] {
@@ -886,21 +947,37 @@ fn cmap14_case(s: &mut Session, rng: &mut Rng) {
         Some(MapVariant::UseDefault) => "default".into(),
         Some(MapVariant::Variant(g)) => format!("v{}", g.to_u32()),
     };
-    let got: Vec<String> = qs.iter().map(|(c, sel)| show(cm.map_variant(*c, *sel))).collect();
+    // ---- map_variant: every call under catch; a panic is a failure of the lookup oracle
+    let got: Vec<String> = qs.iter().map(|(c, sel)| match catch(|| cm.map_variant(*c, *sel)) {
+        Ok(v) => show(v),
+        Err(m) => format!("panicked: {m}"),
+    }).collect();
     for ((c, sel), g) in qs.iter().zip(&got) {
-        if malformed { break; }
+        let panicked = g.starts_with("panicked");
+        if malformed && !panicked { continue; }
         let w = match want.get(&(*c, *sel)) { None => "none".to_string(), Some(None) => "default".into(), Some(Some(g)) => format!("v{g}") };
-        s.oracle("cmap14_map_variant", *g == w, || format!("({c},{sel}) in {}", toks.join(" ")), || format!("got {g} want {w}"));
+        s.oracle("cmap14_map_variant", !panicked && *g == w, || format!("({c},{sel}) in Cmap14 {tt}"), || format!("got {g} want {w}"));
     }
-    let tt = if toks.is_empty() { "-".to_string() } else { toks.join(" ") };
     let qt = qs.iter().map(|(c, s)| format!("{c},{s}")).collect::<Vec<_>>().join(" ");
     s.case("r14.map", format!("r14.map {qt} | {tt}"), got.join(" "));
-    let items: Vec<String> = cm.variant_mappings().map(|(c, sel, v)| format!("{c},{sel},{}", show(Some(v)))).collect();
-    s.case("r14.iter", format!("r14.iter {tt}"), if items.is_empty() { "-".into() } else { items.join(" ") });
-    // the iterator enumerates exactly what map_variant answers (defaults shadow non-defaults in map_variant)
-    let n_items = items.len();
-    let n_want = want.len();
-    s.oracle("cmap14-iter-covers-encoded", n_items >= n_want, || tt.clone(), || format!("{n_items} < {n_want}"));
+    // ---- enumeration: Charmap::variant_mappings (Cmap14Iter) yields exactly what was encoded, record by
+    // record in array order: default ranges expanded, then non-default mappings (also on unsorted arrays)
+    let expected: Vec<String> = exp_recs.concat();
+    let items: Result<Vec<String>, String> =
+        catch(|| cm.variant_mappings().take(expected.len() + 1000).map(|(c, sel, v)| format!("{c},{sel},{}", show(Some(v)))).collect());
+    match items {
+        Ok(items) => {
+            s.oracle("cmap14_iter=encoded", items == expected, || format!("Cmap14 {tt}"), || {
+                let at = items.iter().zip(&expected).position(|(a, b)| a != b).unwrap_or(items.len().min(expected.len()));
+                format!("{} items, want {}; first difference at #{at}: got {:?} want {:?}", items.len(), expected.len(), items.get(at), expected.get(at))
+            });
+            s.case("r14.iter", format!("r14.iter {tt}"), if items.is_empty() { "-".into() } else { items.join(" ") });
+        }
+        Err(m) => {
+            s.oracle("cmap14_iter=encoded", false, || format!("Cmap14 {tt}"), || format!("panicked: {m}"));
+            s.case("r14.iter", format!("r14.iter {tt}"), format!("panicked: {m}"));
+        }
+    }
 }
 
 // ------------------------------------------------------------------------------------------
@@ -951,7 +1028,7 @@ fn run(cfg: &Config, s: &mut Session) {
         }
     }
     for (i, runs) in fixed.iter().enumerate() {
-        builder_case(s, &mut rng, runs, thorough || i < 3, 0xFFFF);
+        guarded(s, "builder", |s| builder_case(s, &mut rng, runs, thorough || i < 3, 0xFFFF));
     }
 
     // --- generated mappings
@@ -990,7 +1067,7 @@ fn run(cfg: &Config, s: &mut Session) {
         }
         let ng = if max_g < 0xFFFF { max_g as u16 + *rng.pick(&[1u16, 1, 0, 50]) } else { 0xFFFF };
         let all_bmp = thorough && i % 40 == 0;
-        builder_case(s, &mut rng, &runs, all_bmp, ng);
+        guarded(s, "builder", |s| builder_case(s, &mut rng, &runs, all_bmp, ng));
     }
     // --- large mappings: many segments / many glyph ids, up to and past the 64 KiB format-4 limit
     let n_large = if thorough { 240 } else { 8 };
@@ -1003,23 +1080,23 @@ fn run(cfg: &Config, s: &mut Session) {
             // one long unordered run: > 32k glyph ids -> range offsets near the u16 limit
             runs = vec![Run { c: 0x100, g: 40000, n: 20000 + rng.below(14000) as u32, d: -1 }, Run { c: 0xA000, g: 3, n: 1 + rng.below(40) as u32, d: 0 }];
         }
-        builder_case(s, &mut rng, &runs, thorough && i % 10 == 0, 0xFFFF);
+        guarded(s, "builder", |s| builder_case(s, &mut rng, &runs, thorough && i % 10 == 0, 0xFFFF));
     }
 
     // --- readers on arbitrary tables
     let n_raw = if thorough { 80000 } else { 2500 };
     for _ in 0..n_raw {
-        raw4_case(s, &mut rng, thorough);
-        raw12_case(s, &mut rng);
+        guarded(s, "cmap4-reader", |s| raw4_case(s, &mut rng, thorough));
+        guarded(s, "cmap12-reader", |s| raw12_case(s, &mut rng));
     }
     let n_sel = if thorough { 60000 } else { 3000 };
     for _ in 0..n_sel {
-        selection_case(s, &mut rng);
+        guarded(s, "selection", |s| selection_case(s, &mut rng));
     }
     for _ in 0..(n_sel / 10) {
-        symbol_case(s, &mut rng);
+        guarded(s, "symbol", |s| symbol_case(s, &mut rng));
     }
     for _ in 0..(n_sel / 2) {
-        cmap14_case(s, &mut rng);
+        guarded(s, "cmap14", |s| cmap14_case(s, &mut rng));
     }
 }
